@@ -33,6 +33,9 @@ STRING_METHODS = {'join', 'format', 'splitlines', 'split', 'strip', 'lower', 'up
                   'encode', 'decode', 'rstrip', 'lstrip', 'match', 'search'}
 
 
+LIST_FIELDS = {'valuelist', 'cells', 'outputs', 'decisions', 'diff', 'local_diff', 'remote_diff', 'custom_diff'}     # always lists (diff format / nbformat schema)
+
+
 class Summaries:
     def __init__(self, repo, cg, module_filter=None, exempt=None, scalar_fields=(), input_fields=()):
         self.repo = repo
@@ -461,7 +464,10 @@ class FnAlias:
             v = self.ev(st.value, env)
             if isinstance(st.target, ast.Name):
                 cur = env.get(st.target.id, set())
-                if self.roots(cur, ('ref',)) and isinstance(st.value, (ast.List, ast.Dict, ast.Set, ast.ListComp, ast.DictComp, ast.SetComp)):
+                # a name that was bound to a list-typed field of a diff entry / decision / notebook IS that list: += extends it in place
+                listy = any(isinstance(n, ast.Assign) and any(isinstance(t, ast.Name) and t.id == st.target.id for t in n.targets) and
+                            isinstance(n.value, ast.Attribute) and n.value.attr in LIST_FIELDS for n in walk_no_nested(self.fn))
+                if self.roots(cur, ('ref',)) and (listy or isinstance(st.value, (ast.List, ast.Dict, ast.Set, ast.ListComp, ast.DictComp, ast.SetComp))):
                     # in-place for lists/dicts/sets; plain rebinding for str/int (types unknown: only container displays count)
                     self.note_mut(st, cur, 'augmented assignment %s' % ast.unparse(st)[:50], base=st.target)
                 env[st.target.id] = set(cur) | self.copy_of(v)
